@@ -106,6 +106,7 @@ type TypeInv struct {
 }
 
 type ContractSet struct {
+	ImmFields map[string]*ImmField
 	TypeInvs map[string]*TypeInv
 	ByName  map[string]*Contract // pkg + "." + Name
 	Ghosts  map[string]*GhostVar
@@ -118,12 +119,12 @@ type ContractSet struct {
 }
 
 func NewContractSet() *ContractSet {
-	return &ContractSet{TypeInvs: map[string]*TypeInv{}, ByName: map[string]*Contract{}, Ghosts: map[string]*GhostVar{}, Specs: map[string]*SpecFunc{}, Defines: map[string]*Define{}}
+	return &ContractSet{ImmFields: map[string]*ImmField{}, TypeInvs: map[string]*TypeInv{}, ByName: map[string]*Contract{}, Ghosts: map[string]*GhostVar{}, Specs: map[string]*SpecFunc{}, Defines: map[string]*Define{}}
 }
 
 var reFuncHdr = regexp.MustCompile(`^func\s+(?:\(([^)]*)\)\s*)?([A-Za-z_$][\w$.]*)`)
 var rePropLabel = regexp.MustCompile(`^\s*((?:C\d+,?)+/)?([A-Za-z_][\w\-.]*)\s*:\s+`)
-var keywords = []string{"assumes", "typeinv", "purepkg", "noreturn", "func", "iface", "props", "requires", "ensures", "modifies", "decreases", "may_panic", "no_panic", "pure", "trusted", "opaque", "inline", "loop", "ghost", "spec", "define", "axiom", "package"}
+var keywords = []string{"immutable", "assumes", "typeinv", "purepkg", "noreturn", "func", "iface", "props", "requires", "ensures", "modifies", "decreases", "may_panic", "no_panic", "pure", "trusted", "opaque", "inline", "loop", "ghost", "spec", "define", "axiom", "package"}
 
 func startsWithKeyword(s string) string {
 	for _, k := range keywords {
@@ -246,6 +247,28 @@ func (cs *ContractSet) LoadFile(path, pkg string, trusted bool) {
 			cur = nil
 		case "purepkg":
 			cs.PurePkgs = append(cs.PurePkgs, rest)
+		case "immutable":
+			// immutable T.f, T.g by ctor1,ctor2
+			decl, by := rest, ""
+			if i := strings.Index(rest, " by "); i >= 0 {
+				decl, by = rest[:i], rest[i+4:]
+			}
+			var bys []string
+			for _, b := range strings.Split(by, ",") {
+				if b = strings.TrimSpace(b); b != "" {
+					bys = append(bys, b)
+				}
+			}
+			for _, d := range strings.Split(decl, ",") {
+				d = strings.TrimSpace(d)
+				parts := strings.SplitN(d, ".", 2)
+				if len(parts) != 2 {
+					errf(l.line, "bad immutable declaration %q", d)
+					continue
+				}
+				cs.ImmFields[pkg+"."+d] = &ImmField{Pkg: pkg, Type: parts[0], Field: parts[1], By: bys, File: path, Line: l.line}
+			}
+			cur = nil
 		case "typeinv":
 			// typeinv <Type> by f1,f2: expr over self
 			m := regexp.MustCompile(`^(\w+)\s+by\s+([\w$.,\s]+?)\s*:\s*(.+)$`).FindStringSubmatch(rest)
